@@ -281,7 +281,11 @@ def abstract_rejects(p: Project, ci, fi: FuncInfo, env: dict, must: bool, _depth
                     if 'incomparable' in str(e) and mentions(s_.test):
                         return REJ                                  # the test itself raises TypeError for this value
                     rel = related or mentions(s_.test)
-                    out = comb(walk(s_.body, rel), walk(s_.orelse, related if guard_clause else rel))
+                    if guard_clause and not rel and isinstance(s_.body[-1], ast.Raise):
+                        # the validation of some OTHER argument (`if not isinstance(env, Environment): raise`): assume it passes
+                        out = walk(s_.orelse, related)
+                    else:
+                        out = comb(walk(s_.body, rel), walk(s_.orelse, related if guard_clause else rel))
                 if out != FALL:
                     return out
             elif isinstance(s_, ast.Assert):
@@ -343,6 +347,42 @@ def cond_establishes_equal(e, const) -> Optional[bool]:
         if c is not None and c[0] in ('tuple', 'list') and tuple(c[1]) == (('const', const),):
             return (ops[0] == 'In') == bool(e.polarity)
     return None
+
+
+# ------------------------------------------------------------------------------------------------ identity equality of objects kept in lists
+def value_equality_classes(p: Project):
+    """Stores and the kernel locate 'this very object' with list.remove / list.index / `in` - all of which compare with ==.  That is sound only while
+    the objects compare by identity.  Yields (rel, ClassDef, how) for every class of the package that changes what == means: a __eq__ / __ne__ of its
+    own, or a @dataclass (eq=True is the default).  `how` is the construct."""
+    for rel, m in sorted(p.raw().modules.items()):
+        for c in [n for n in ast.walk(m.tree) if isinstance(n, ast.ClassDef)]:
+            for f in c.body:
+                if isinstance(f, ast.FunctionDef) and f.name in ('__eq__', '__ne__'):
+                    yield rel, c, f'defines {f.name}', f.lineno
+                if isinstance(f, ast.Assign) and any(isinstance(t, ast.Name) and t.id in ('__eq__', '__ne__') for t in f.targets):
+                    yield rel, c, f'assigns {ast.unparse(f.targets[0])}', f.lineno
+            for d in c.decorator_list:
+                name = ast.unparse(d.func if isinstance(d, ast.Call) else d).split('.')[-1]
+                if name == 'dataclass':
+                    eq_false = isinstance(d, ast.Call) and any(k.arg == 'eq' and isinstance(k.value, ast.Constant) and k.value.value is False for k in d.keywords)
+                    if not eq_false:
+                        yield rel, c, '@dataclass generates __eq__ (field-wise)', c.lineno
+
+
+def class_family(p: Project, rel: str, c: ast.ClassDef) -> set:
+    """names of the class and of everything it (transitively, inside the package) derives from, plus the imported base names it mentions"""
+    out = {c.name}
+    todo = [c]
+    defs = {n.name: n for m in p.raw().modules.values() for n in ast.walk(m.tree) if isinstance(n, ast.ClassDef)}
+    while todo:
+        x = todo.pop()
+        for b in x.bases:
+            nm = ast.unparse(b).split('.')[-1]
+            if nm not in out:
+                out.add(nm)
+                if nm in defs:
+                    todo.append(defs[nm])
+    return out
 
 
 # ------------------------------------------------------------------------------------------------ must-call helpers do their work on every path
